@@ -96,6 +96,7 @@ class _Points:
 def _install_patches(st):
     """wrap the real dataset methods once per process; st.hook(point) is called at each point enabled in st.points (session table only)"""
     import dataset
+    import dataset.database
     import dataset.table
     T = dataset.table.Table
     o_len, o_insert, o_sync_table, o_sync_columns = T.__len__, T.insert, T._sync_table, T._sync_columns
@@ -108,19 +109,28 @@ def _install_patches(st):
         return db
     dataset.connect = w_connect
 
-    def w_len(self):
-        if self.name != SESSION_TABLE:
-            return o_len(self)
-        if "R" in points:
-            st.hook("R")
-        st.log.append(("R", "begin", time.monotonic_ns()))
-        try:
-            v = o_len(self)
-        except BaseException as e:
-            st.log.append(("R", "raised %s" % type(e).__name__, time.monotonic_ns()))
-            raise
-        st.log.append(("R", "value %r" % (v,), time.monotonic_ns()))
-        return v
+    def make_read(orig, label):
+        # every way of READING the session table outside an insert is the point "R" (the code may count, find, iterate ...); nested reads
+        # (len -> count, find_one -> find) are one point
+        def w_read(self, *a, **k):
+            if self.name != SESSION_TABLE or st.in_insert or getattr(st, "in_read", False):
+                return orig(self, *a, **k)
+            st.in_read = True
+            try:
+                if "R" in points:
+                    st.hook("R")
+                st.log.append(("R", "begin " + label, time.monotonic_ns()))
+                try:
+                    v = orig(self, *a, **k)
+                except BaseException as e:
+                    st.log.append(("R", "raised %s" % type(e).__name__, time.monotonic_ns()))
+                    raise
+                st.log.append(("R", "value %r" % (v if isinstance(v, (int, type(None))) else type(v).__name__,), time.monotonic_ns()))
+                return v
+            finally:
+                st.in_read = False
+        return w_read
+    w_len = make_read(o_len, "len")
 
     def w_insert(self, row, *a, **k):
         if self.name != SESSION_TABLE:
@@ -154,7 +164,21 @@ def _install_patches(st):
             st.log.append(("I", "execute", time.monotonic_ns()))
         return out
 
+    D = dataset.database.Database
+    if hasattr(D, "_auto_commit"):
+        o_auto_commit = D._auto_commit
+
+        def w_auto_commit(self, *a, **k):
+            # point "X": the INSERT statement was executed, its transaction is not committed yet (the process holds the write lock)
+            if st.in_insert and "X" in points:
+                st.hook("X")
+                st.log.append(("X", "before commit", time.monotonic_ns()))
+            return o_auto_commit(self, *a, **k)
+        D._auto_commit = w_auto_commit
     T.__len__ = w_len
+    for nm_ in ("count", "find", "find_one", "all", "distinct", "__iter__"):
+        if hasattr(T, nm_):
+            setattr(T, nm_, make_read(getattr(T, nm_), nm_))
     T.insert = w_insert
     T._sync_table = w_sync_table
     T._sync_columns = w_sync_columns
@@ -222,6 +246,10 @@ def _child_body(cfg):
         st.points = tuple(run["points"])
         if run["mode"] == "rendezvous":
             st.hook = pause
+        elif run.get("stall"):
+            # injected delay: this process sleeps the given number of seconds the FIRST time it reaches the named point
+            todo = dict(run["stall"])
+            st.hook = lambda point: time.sleep(todo.pop(point, 0))
         else:
             rng = random.Random(run["seed"])
             max_ms = run["max_sleep_ms"]
@@ -684,7 +712,7 @@ def explore_all(run_prefix, workers=8, max_runs=None, rng=None):
     return results, complete
 
 
-def run_unscheduled(zy, sockdir, k, db_urls, points, seed, max_sleep_ms=2.0, timeout=120, pool=None):
+def run_unscheduled(zy, sockdir, k, db_urls, points, seed, max_sleep_ms=2.0, timeout=120, pool=None, stalls=None):
     """per db_url one round: k processes (fresh one-shot children waiting at a barrier, or k pool workers) are released together and
     run the constructor with seeded random sleeps of 0..max_sleep_ms at the hook points.
     -> list of {"status", "results": {idx: msg}, "round"} per round"""
@@ -694,6 +722,9 @@ def run_unscheduled(zy, sockdir, k, db_urls, points, seed, max_sleep_ms=2.0, tim
         rounds.append(rd)
         cfgs = [{"mode": "stress", "idx": i, "seed": "%s/%d/%d" % (seed, r, i), "max_sleep_ms": max_sleep_ms, "points": list(points), "db_url": url}
                 for i in range(k)]
+        if stalls:
+            for i in range(k):
+                cfgs[i]["stall"] = stalls.get(i, {"-": 0})
         g = None
         try:
             if pool is not None:
